@@ -50,6 +50,10 @@ DefaultMetric(ek) == CASE ek = "str" -> "lev" [] ek = "A" -> "cdr3A" [] ek = "B"
 DefaultMetricMut(ek) == IF "swap_default_AB" \in Mutations /\ ek \in {"A", "B"}
                         THEN (IF ek = "A" THEN "cdr3B" ELSE "cdr3A") ELSE DefaultMetric(ek)
 
+\* Levenshtein distance between homopolymers a^n and b^m given as <<letter, length>> (closed form, checked against the DP
+\* for all small n, m by MCPcDelta!HomoClosedFormOK): used by the trace validator for strings of hundreds of letters
+HomoDist(x, y) == IF x[1] = y[1] THEN Abs(x[2] - y[2]) ELSE Max2(x[2], y[2])
+
 \* ---- reference semantics
 PairDists(mk, ek, x) == [ij \in { p \in (1..Len(x)) \X (1..Len(x)) : p[1] < p[2] } |-> ElemDist(mk, ek, x[ij[1]], x[ij[2]])]
 CrossDists(mk, ek, x, y) == [ij \in (1..Len(x)) \X (1..Len(y)) |-> ElemDist(mk, ek, x[ij[1]], y[ij[2]])]
